@@ -77,7 +77,9 @@ def compare(iso, back, fmt, meta_keys):
     """Field-by-field differences: list of (check, text, sig-extra)."""
     import pygaps
     out = []
-    if type(iso) is not type(back):
+    # (an instance of a user subclass comes back as the library class it derives from)
+    lib_class = next(c_ for c_ in type(iso).__mro__ if c_.__module__.startswith('pygaps.'))
+    if lib_class is not type(back):
         return [('class-changed', f'{type(iso).__name__} -> {type(back).__name__}', {})]
     if iso.material.name != back.material.name:
         out.append(('material', f'{iso.material.name!r} -> {back.material.name!r}', {}))
@@ -201,6 +203,25 @@ def work(arg):
                 raise core.HarnessError(f'cannot build a converted isotherm for {cfg}: {mk.brief()}')
             res['viol'] += one(mk.value, fmt, target, 'point', {'units': cfg, 'shape': spec, 'reached_by': 'conversion from default units'},
                                {'reached_by': 'conversion'}, list(meta_small))
+        elif kind == 'subclass':
+            # instances of user subclasses that add nothing to the content: exported like the library class
+            import pygaps
+
+            class LabPoint(pygaps.PointIsotherm):
+                def label(self):
+                    return str(self.material)
+
+            class LabModel(pygaps.ModelIsotherm):
+                def label(self):
+                    return str(self.material)
+            plain_p = g.mk_point(cfg, spec, meta_small, scale)
+            sub_p = LabPoint(isotherm_data=plain_p.data_raw.copy(), pressure_key=plain_p.pressure_key, loading_key=plain_p.loading_key, **plain_p.to_dict())
+            res['viol'] += one(sub_p, fmt, target, 'point', {'units': cfg, 'shape': spec, 'class': 'user subclass of PointIsotherm'}, {'class': 'user subclass'}, list(meta_small))
+            plain_m = g.mk_model(cfg, 'Langmuir', meta_small)
+            sub_m = LabModel(model=plain_m.model, **plain_m.to_dict())
+            res['viol'] += one(sub_m, fmt, target, 'model', {'units': cfg, 'class': 'user subclass of ModelIsotherm'}, {'class': 'user subclass'}, list(meta_small))
+            res['ev'] += 1
+            res['nt'] += 1
         elif kind == 'gapped-index':
             import pygaps
             df = g.point_frame(*spec, scale)
@@ -307,6 +328,8 @@ def run(ctx):
             jobs.append(('converted', fmt, cfg, (4, 'guessable', 'numeric'), ctx.scale))
             jobs.append(('gapped-index', fmt, cfg, (7, 'guessable', 'numeric'), ctx.scale))
             jobs.append(('gapped-index', fmt, cfg, (4, 'all-des', 'none'), ctx.scale))
+            if ci in (0, 5):
+                jobs.append(('subclass', fmt, cfg, (4, 'guessable', 'numeric'), ctx.scale))
             if fmt in ('csv', 'xls'):
                 jobs.append(('custom-keys', fmt, cfg, (4, 'guessable', 'numeric'), ctx.scale))
             if ci == 0:
